@@ -34,6 +34,8 @@ def main(argv):
         else:
             print('unknown argument', argv[i]); return 2
     seed = int(os.environ.get('VERIF_SEED', '0') or 0)
+    if os.environ.get('VERIF_COVER'):
+        lib.start_cover(os.environ['VERIF_COVER'])
     ctx = lib.Ctx(prop, tier, seed)
     try:
         mod = importlib.import_module('props.' + prop.lower())
